@@ -8,6 +8,7 @@ import (
 	"maps"
 	"slices"
 	"strings"
+	"time"
 
 	"github.com/honeycombio/refinery/config"
 	jsoniter "github.com/json-iterator/go"
@@ -938,7 +939,7 @@ func (p Payload) MarshalMsg(buf []byte) ([]byte, error) {
 
 		buf = msgp.AppendString(buf, key)
 		var err error
-		buf, err = msgp.AppendIntf(buf, value)
+		buf, err = appendIntf(buf, value)
 		if err != nil {
 			return buf, err
 		}
@@ -990,6 +991,36 @@ func (p Payload) MarshalMsg(buf []byte) ([]byte, error) {
 	buf[startLen+2] = byte(actualCount)
 
 	return buf, nil
+}
+
+// appendIntf is msgp.AppendIntf, except that a time.Time (at any nesting depth) is
+// written with the standard msgpack timestamp extension (-1), which is what the client
+// sent and what every msgpack library understands, rather than with msgp's
+// library-specific extension 5 (see also transmit.batchedEvent.MarshalMsg).
+func appendIntf(buf []byte, value any) ([]byte, error) {
+	var err error
+	switch v := value.(type) {
+	case time.Time:
+		return msgp.AppendTimeExt(buf, v), nil
+	case map[string]any:
+		buf = msgp.AppendMapHeader(buf, uint32(len(v)))
+		for k, e := range v {
+			buf = msgp.AppendString(buf, k)
+			if buf, err = appendIntf(buf, e); err != nil {
+				return buf, err
+			}
+		}
+		return buf, nil
+	case []any:
+		buf = msgp.AppendArrayHeader(buf, uint32(len(v)))
+		for _, e := range v {
+			if buf, err = appendIntf(buf, e); err != nil {
+				return buf, err
+			}
+		}
+		return buf, nil
+	}
+	return msgp.AppendIntf(buf, value)
 }
 
 // TODO implement Sizer so buffer can be correctly presized
